@@ -1511,11 +1511,15 @@ impl<A: Flavour> Case<A> {
       return "r=nocase".to_string();
     }
     let t: Vec<&str> = line.split(' ').collect();
+    seq_hook::reset_steps();
     let body = catch_unwind(AssertUnwindSafe(|| self.exec_in(&t)));
+    let spun = seq_hook::diverged();
+    seq_hook::reset_steps();
     let state = catch_unwind(AssertUnwindSafe(|| self.state()));
     match (body, state) {
       (Ok(None), _) => "bad-op".to_string(),
       (Ok(Some(b)), Ok(s)) => format!("{b} {s}"),
+      (Err(_), Ok(s)) if spun => format!("r=diverge {s}"),
       (Err(_), Ok(s)) => {
         // a panicking buffer operation still reports the length of its handle
         let len = matches!(
@@ -1942,8 +1946,29 @@ impl Session {
           Err(kind) => format!("r=ok ce=0 cr={kind}"),
           Ok(mut c) => {
             let rec = c.reopen_obs().map(|(_, st)| pick(&st));
+            // "every operation on the reopened arena terminates": a request that fresh space cannot serve (the
+            // free list is searched), a release that goes to the list, and the removal of every segment
+            let rem = c.arena().remaining as u64;
+            let mut cp = "ok";
+            for l in [
+              format!("alloc_bytes 4000000000 {}", rem + 1),
+              "alloc_bytes 4000000001 40".to_string(),
+              "alloc_bytes 4000000002 1".to_string(),
+              "dealloc 4000000001".to_string(),
+              "discard_freelist".to_string(),
+            ] {
+              let a = c.exec(&l);
+              if a.starts_with("r=diverge") {
+                cp = "diverge";
+                break;
+              }
+              if a.starts_with("r=panic") {
+                cp = "panic";
+                break;
+              }
+            }
             drop(c);
-            format!("r=ok ce={} cr=ok", (live.is_some() && live == rec) as u8)
+            format!("r=ok ce={} cr=ok cp={cp}", (live.is_some() && live == rec) as u8)
           }
         };
         let _ = std::fs::remove_file(&crash);
@@ -2128,17 +2153,35 @@ pub mod seq_hook {
   use std::sync::atomic::{AtomicU64, Ordering};
 
   static UNMOUNTS: AtomicU64 = AtomicU64::new(0);
+  /// atomic accesses made by the operation line that is running (reset by `exec_line`)
+  static STEPS: AtomicU64 = AtomicU64::new(0);
+  /// An operation of the single-threaded `seq` driver that makes more atomic accesses than this is spinning (the
+  /// longest honest ones are list traversals: a few accesses per segment).
+  pub const STEP_LIMIT: u64 = 4_000_000;
   struct SeqHook;
   static HOOK: SeqHook = SeqHook;
 
   impl Hook for SeqHook {
     fn before(&self, _a: &Access) -> Decision {
+      if STEPS.fetch_add(1, Ordering::Relaxed) == STEP_LIMIT {
+        panic!("diverge: more than {STEP_LIMIT} atomic accesses in one operation");
+      }
       Decision::Proceed
     }
     fn after(&self, _a: &Access, _o: &Outcome) {}
     fn unmount(&self, _base: usize, _cap: usize) {
       UNMOUNTS.fetch_add(1, Ordering::Relaxed);
     }
+  }
+
+  /// start of an operation line
+  pub fn reset_steps() {
+    STEPS.store(0, Ordering::Relaxed);
+  }
+
+  /// did the running line hit the step limit?
+  pub fn diverged() -> bool {
+    STEPS.load(Ordering::Relaxed) > STEP_LIMIT
   }
 
   /// number of `Memory::unmount` calls so far in this process
